@@ -23,6 +23,7 @@ import (
 	"strconv"
 	"strings"
 	"sync"
+	"syscall"
 	"time"
 )
 
@@ -238,14 +239,32 @@ func runWorker(bin string, cfg workerCfg, timeout time.Duration) (*summary, erro
 	select {
 	case werr = <-done:
 	case <-time.After(timeout):
-		cmd.Process.Kill()
-		<-done
-		return nil, fmt.Errorf("worker %d watchdog: no result after %v", cfg.Worker, timeout)
+		cmd.Process.Signal(syscall.SIGQUIT) // goroutine dump into the log
+		select {
+		case <-done:
+		case <-time.After(20 * time.Second):
+			cmd.Process.Kill()
+			<-done
+		}
+		logf.Close()
+		lb, _ := os.ReadFile(cfg.OutFile + ".log")
+		keepDir := filepath.Join(verifDir, "replays", "_machinery")
+		os.MkdirAll(keepDir, 0o755)
+		stamp := fmt.Sprintf("%s-w%d-%d-watchdog", cfg.Property, cfg.Worker, time.Now().Unix())
+		os.WriteFile(filepath.Join(keepDir, stamp+".log"), lb, 0o644)
+		os.WriteFile(filepath.Join(keepDir, stamp+".cfg.json"), b, 0o644)
+		return nil, fmt.Errorf("worker %d watchdog: no result after %v (goroutine dump kept in %s)", cfg.Worker, timeout, keepDir)
 	}
 	logf.Close()
 	ob, err := os.ReadFile(cfg.OutFile)
 	if err != nil {
 		lb, _ := os.ReadFile(cfg.OutFile + ".log")
+		// keep what is needed to look into it: the configuration and the full log
+		keepDir := filepath.Join(verifDir, "replays", "_machinery")
+		os.MkdirAll(keepDir, 0o755)
+		stamp := fmt.Sprintf("%s-w%d-%d", cfg.Property, cfg.Worker, time.Now().Unix())
+		os.WriteFile(filepath.Join(keepDir, stamp+".log"), lb, 0o644)
+		os.WriteFile(filepath.Join(keepDir, stamp+".cfg.json"), b, 0o644)
 		tail := string(lb)
 		if len(tail) > 3000 {
 			tail = tail[len(tail)-3000:]
@@ -253,7 +272,9 @@ func runWorker(bin string, cfg workerCfg, timeout time.Duration) (*summary, erro
 		return nil, fmt.Errorf("worker %d produced no summary (%v): %s", cfg.Worker, werr, tail)
 	}
 	var s summary
-	if err := json.Unmarshal(ob, &s); err != nil {
+	dec := json.NewDecoder(strings.NewReader(string(ob)))
+	dec.UseNumber() // run seeds are 64-bit: never through float64
+	if err := dec.Decode(&s); err != nil {
 		return nil, err
 	}
 	return &s, nil
@@ -513,7 +534,16 @@ func main() {
 	for i, v := range agg.Violations {
 		var rf map[string]interface{}
 		b, _ := os.ReadFile(v)
-		json.Unmarshal(b, &rf)
+		rdec := json.NewDecoder(strings.NewReader(string(b)))
+		rdec.UseNumber()
+		rdec.Decode(&rf)
+		num := func(k string) float64 {
+			if n, ok := rf[k].(json.Number); ok {
+				f, _ := n.Float64()
+				return f
+			}
+			return 0
+		}
 		class, _ := rf["class"].(string)
 		detail, _ := rf["detail"].(string)
 		if seenClass[class] {
@@ -525,10 +555,7 @@ func main() {
 			// The violation may depend on state that earlier runs of the same worker
 			// process left behind (itself a cross-call leak). Replay the run after the
 			// runs that preceded it in that worker, then shorten that prefix.
-			worker, _ := rf["explored_by_worker"].(float64)
-			nworkers, _ := rf["explored_with_workers"].(float64)
-			procs, _ := rf["explored_at_gomaxprocs"].(float64)
-			idx, _ := rf["run_index"].(float64)
+			worker, nworkers, procs, idx := num("explored_by_worker"), num("explored_with_workers"), num("explored_at_gomaxprocs"), num("run_index")
 			var prefix []int
 			for r := int(worker); r < int(idx) && nworkers > 0; r += int(nworkers) {
 				prefix = append(prefix, r)
